@@ -198,7 +198,8 @@ def store_job(job):
         if [s.id for s in back.stages] != [s.id for s in wf.stages]:
             viols.append({"kind": "stage-order-changed", "sig": "stage-order"})
         # read-modify-write: change ONE thing, everything else must stay
-        for ri, change in enumerate(("context", "outputs", "status", "task", "outputs+context", "outputs")):
+        for ri, change in enumerate(("context", "outputs", "status", "task", "outputs+context", "outputs", "fill", "clear", "fill",
+                                     "clear")):
             cur = w.store.retrieve_stage(st.id)
             before = snapshot(cur)
             phase = cur.status.name  # the status the row has now: what a CAS save expects
@@ -210,7 +211,20 @@ def store_job(job):
                 before.outputs["produced"] = {"n": [ci, ri], "_u": None}
                 cur.outputs.pop("o", None)
                 before.outputs.pop("o", None)
-            if change in ("context", "outputs", "outputs+context"):
+            if change in ("fill", "clear"):
+                # every nullable / emptiable RUN-TIME field (the ones a stage save writes: times, outputs, context, task
+                # times and details - not the definitional settings fixed at creation) set to a value, then back to
+                # None / empty, as re-arming a stage for a retry loop does: a save must be able to CLEAR what an earlier
+                # save wrote
+                fill = change == "fill"
+                for obj in (cur, before):
+                    obj.start_time, obj.end_time = (1000 + ri, 2000 + ri) if fill else (None, None)
+                    obj.outputs = {"filled": ri} if fill else {}
+                    obj.context = dict(obj.context, filled=ri) if fill else {k: x for k, x in obj.context.items() if k != "filled"}
+                    for t in obj.tasks:
+                        t.start_time, t.end_time = (3000 + ri, 4000 + ri) if fill else (None, None)
+                        t.task_exception_details = {"e": ri} if fill else {}
+            elif change in ("context", "outputs", "outputs+context"):
                 pass
             elif change == "status":
                 from stabilize.models.status import WorkflowStatus
@@ -409,7 +423,7 @@ def aggregate(results, tier, seed, pre):
             "rule": "stage records: every enum member of status/join/split/synthetic owner, every optional field over {None,'',value,unicode}, 0-3 tasks, "
                     "27 JSON values (empty, nested, unicode incl. astral, quotes, control chars, 2^63, floats, 64 KB string, deep nesting) in context/outputs; one field "
                     "varied at a time (thorough: pairs); each stored through store(), read through retrieve() and retrieve_stage(), then three read-modify-write "
-                    "six read-modify-write rounds (context / outputs / status / task changed) through the four save paths: store.store_stage and AtomicTransaction.store_stage, each with and without expected_phase. messages: every message class x every field over its domain through queue.push AND "
+                    "ten read-modify-write rounds (context / outputs / status / task changed, every nullable field filled and cleared again, twice) through the four save paths: store.store_stage and AtomicTransaction.store_stage, each with and without expected_phase. messages: every message class x every field over its domain through queue.push AND "
                     "AtomicTransaction.push_message, polled back; distinct_nontrivial counts distinct records/instances",
             "samples": [s for r in good for s in r.get("samples", [])][:4] or [{"note": "none"}],
             "exhaustive": True,
